@@ -151,6 +151,7 @@ Close(p) ==
 (* os.Rename(tmp, local); lastPersisted = s.version   -> gate Renamed *)
 Rename(p) ==
   /\ Alive /\ pc[p] = "closed"
+  /\ tmp.ex                      \* the name is still there (always, unless a fault step below took it away)
   /\ local' = [ex |-> TRUE, lines |-> tmp.lines]
   /\ tmp' = NoTmp
   /\ lastPersisted' = snap[p].ver
@@ -171,6 +172,48 @@ Crash ==
   /\ \E p \in Writers : pc[p] # "done"
   /\ crashed' = crashed + 1
   /\ UNCHANGED <<mem, version, lastPersisted, holder, pc, opi, snap, local, tmp, hist, localVer>>
+
+(* ------------------- I/O faults inside persist ------------------------ *)
+(* NOT steps of Next: the environment layer BlRefresh.tla enables them     *)
+(* through its constant Faults (every MC_Persist / BlQueue configuration   *)
+(* stays what it was).  A fault is something the surroundings do to the    *)
+(* writer between CreateTemp and Rename:                                   *)
+(*   TempVanish     the NAME of the temp file is removed from the          *)
+(*                  directory (a tmp cleaner, an operator, or - for the    *)
+(*                  refresh of a running instance walking the directory -  *)
+(*                  the code itself, see BlRefresh!Refresh).  tmp.ex is    *)
+(*                  the directory entry; the writer keeps its descriptor,  *)
+(*                  so header / lines / sync / close still succeed and     *)
+(*                  only os.Rename fails                                   *)
+(*   FailWrite(p)   tmp.WriteString fails (disk full, EFBIG, EIO) on the   *)
+(*                  header or on an entry line: fail() closes, cleans up,  *)
+(*                  logs; persist returns, the API call returns            *)
+(*   RenameFail(p)  os.Rename fails because the name is gone: cleanup,     *)
+(*                  log, return; lastPersisted is NOT advanced             *)
+(* `cleanup` is what the failure path removes: "temp" = the temp file (the *)
+(* code as written), "local" = the target path (the model mutant: the last *)
+(* good file is deleted and the partial temp file stays behind).           *)
+(* tmp.Sync / tmp.Close failing run the same closure and are not separate  *)
+(* steps (nothing in the harness can make them fail without a hook).       *)
+TempVanish ==
+  /\ Alive /\ tmp.ex
+  /\ tmp' = [tmp EXCEPT !.ex = FALSE]
+  /\ UNCHANGED <<mem, version, lastPersisted, holder, pc, opi, snap, local, crashed, hist, localVer>>
+
+FailedReturn(p, cleanup) ==
+  /\ holder' = 0
+  /\ Return(p)
+  /\ IF cleanup = "temp" THEN tmp' = NoTmp /\ local' = local
+                         ELSE tmp' = tmp /\ local' = NoLocal
+  /\ UNCHANGED <<mem, version, lastPersisted, snap, crashed, hist, localVer>>
+
+FailWrite(p, cleanup) ==
+  /\ Alive /\ (pc[p] = "tmp" \/ (pc[p] = "hdr" /\ tmp.lines # snap[p].set))
+  /\ FailedReturn(p, cleanup)
+
+RenameFail(p, cleanup) ==
+  /\ Alive /\ pc[p] = "closed" /\ ~tmp.ex
+  /\ FailedReturn(p, cleanup)
 
 Step(p) == \/ MutateAndSnapshot(p) \/ MutateNoop(p) \/ PersistSkip(p) \/ CreateTemp(p)
            \/ WriteHeader(p) \/ (\E e \in Entries : WriteLine(p, e))
@@ -254,6 +297,16 @@ NewestWins ==
   /\ (AllDone /\ Alive /\ version > 0) => local.ex /\ local.lines = hist[version]
 LastPersistedExact == (AllDone /\ Alive) => lastPersisted = version
 NeverBackwards == [][localVer' >= localVer /\ lastPersisted' >= lastPersisted]_vars
+
+(* "an interruption during persistence leaves the previous complete file":  *)
+(* whatever happens to a persist (crash, failed write, failed rename), the   *)
+(* only step that changes `local` is a Rename, and it installs the complete  *)
+(* snapshot of the writer that performs it.  In particular a persist that    *)
+(* fails after CreateTemp leaves `local` exactly as it was.                  *)
+PreviousFileKept ==
+  [][local' # local =>
+       \E p \in Writers : /\ pc[p] = "closed" /\ pc'[p] = "renamed"
+                          /\ local'.ex /\ local'.lines = snap[p].set]_vars
 
 (* saveMu discipline: the temp file exists exactly while a writer is between *)
 (* CreateTemp and Rename, and that writer holds saveMu                       *)
